@@ -1,9 +1,7 @@
 (* Model/C20_OS.v — the runtime the file helpers of oslo_utils/fileutils.py run on.
 
-   * [ores]: outcome of a call that may raise: a value, an OSError carrying an errno
-     (every OSError subclass — FileNotFoundError, FileExistsError, ... — is an OSError
-     with the corresponding errno; `except OSError` catches exactly these), or another
-     exception class.
+   * [ores]: outcome of a call that may raise: a value, an OSError instance (class name +
+     errno attribute; `except OSError` catches every subclass), or another exception class.
    * [fobj]: a binary file object opened for reading ([open(path, 'rb')]) over a file
      whose content does not change while it is open: content + position.  [fread],
      [fseek], [ftell] are CPython's BufferedReader.read / seek / tell on a regular file
@@ -13,15 +11,30 @@
      stated for an arbitrary runtime satisfying explicit contracts (Proofs/C20.v);
      Model/C20_FS.v gives one concrete instance (a small file-system model) used for
      extraction/correspondence and to show that the contracts are satisfiable. *)
+From Coq Require Import String.
 Require Import OV.Base.Bytes OV.Base.Py OV.Gen.C20_Consts.
 Open Scope Z_scope.
 
+(* an OSError instance as far as the helpers can tell instances apart: the name of its class
+   (OSError itself, a builtin subclass such as FileNotFoundError, or a user-defined subclass)
+   and the value of its [errno] attribute.  The two are independent: CPython derives the
+   class from the errno only in the constructor call OSError(errno, msg); a subclass instance,
+   or an instance whose errno is assigned later, can pair any class with any errno. *)
+Record oserror : Type := mk_oserror { os_class : bytes; os_errno : Z }.
+
+Fixpoint assoc_Z (k : Z) (l : list (Z * str)) : option str :=
+  match l with [] => None | (k', v) :: t => if k =? k' then Some v else assoc_Z k t end.
+(* the class CPython selects for OSError(errno, msg) — what a failing system call raises *)
+Definition std_class (e : Z) : bytes :=
+  match assoc_Z e oserror_classes with Some c => c | None => lit "OSError" end.
+Definition std_oserror (e : Z) : oserror := mk_oserror (std_class e) e.
+
 Inductive ores (A : Type) : Type :=
 | OOk (a : A)
-| OErr (errno : Z)        (* OSError (any subclass) with this errno *)
+| OErr (e : oserror)      (* an OSError instance (`except OSError` catches exactly these) *)
 | OExn (e : exn).         (* any other exception class *)
 Arguments OOk {A} a.
-Arguments OErr {A} errno.
+Arguments OErr {A} e.
 Arguments OExn {A} e.
 
 Definition nonempty (b : bytes) : bool := match b with [] => false | _ :: _ => true end.
@@ -55,7 +68,7 @@ Definition fseek (f : fobj) (off whence : Z) : fobj * ores Z :=
       else None in
     match target with
     | None => (f, OExn ValueError)
-    | Some t => if t <? 0 then (f, OErr errno_EINVAL)
+    | Some t => if t <? 0 then (f, OErr (std_oserror errno_EINVAL))
                 else (mk_fobj (f_data f) t, OOk t)
     end.
 
